@@ -1,5 +1,299 @@
-//! driver stub (VERIF_CMD=keykeeper)
+//! Key-keeper driver (VERIF_CMD=keykeeper): runs the REAL `KeyKeeper::new(..).poll_secure_channel_status()` against
+//! the scripted secure-channel host (harness/mock/sc_host.py, a separate process on 168.63.129.16:80 in the netns).
+//!
+//! VERIF_KK_MODE=serve (C09 lock-step): multi-thread runtime; a control connection (unix socket VERIF_KK_CTL, one JSON
+//!   object per line, the check is the server) asks for `start`, `stop`, `restart` (abort the task, fresh SharedState: all
+//!   volatile state lost, key directory kept), `proj` (projection through the public getters + key directory listing
+//!   + the H3 `Policy` events emitted since the last `proj`), `notify`, `alive`, `quit`.  The host withholds every
+//!   reply, so when the check asks for a projection the key keeper is parked on its socket and nothing moves.
+//! VERIF_KK_MODE=once (C08 crash sweep): current-thread runtime, file loggers as the service sets them up; runs the
+//!   key keeper until a key is published in memory, then sends ONE signed request (`hyper_client::get` with the
+//!   published guid/key) which the host verifies independently; prints a JSON line and exits 0.  Run under strace
+//!   with kill injection by the check.
+use super::env;
+use crate::common::{config, hyper_client, logger};
+use crate::key_keeper::KeyKeeper;
+use crate::shared_state::SharedState;
+use crate::verif;
+use serde_json::{json, Value};
+use std::collections::HashMap;
+use std::io::{BufRead, BufReader, Read, Seek, SeekFrom, Write};
+use std::path::PathBuf;
+use std::time::{Duration, Instant};
+
+fn opt_env(name: &str, default: &str) -> String {
+    std::env::var(name).unwrap_or_else(|_| default.to_string())
+}
+
+struct Cfg {
+    url: hyper::Uri,
+    key_dir: PathBuf,
+    log_dir: PathBuf,
+    interval: Duration,
+}
+
+fn cfg() -> Cfg {
+    Cfg {
+        url: opt_env("VERIF_KK_URL", "http://168.63.129.16/").parse().expect("url"),
+        key_dir: std::env::var("VERIF_KK_KEYDIR").map(PathBuf::from).unwrap_or_else(|_| config::get_keys_dir()),
+        log_dir: std::env::var("VERIF_KK_LOGDIR").map(PathBuf::from).unwrap_or_else(|_| config::get_logs_dir()),
+        interval: Duration::from_millis(opt_env("VERIF_KK_INTERVAL_MS", "1").parse().expect("interval")),
+    }
+}
+
+fn setup_loggers() {
+    use proxy_agent_shared::logger::rolling_logger::RollingLogger;
+    let log_folder = config::get_logs_dir();
+    proxy_agent_shared::logger::logger_manager::set_logger_level(config::get_file_log_level());
+    let mut loggers = HashMap::new();
+    loggers.insert(
+        logger::AGENT_LOGGER_KEY.to_string(),
+        RollingLogger::create_new(log_folder.clone(), "ProxyAgent.log".to_string(), 10 * 1024 * 1024, 5),
+    );
+    proxy_agent_shared::logger::logger_manager::set_loggers(loggers, logger::AGENT_LOGGER_KEY.to_string());
+}
+
+fn list_dir(dir: &PathBuf) -> Value {
+    let mut out = Vec::new();
+    let exists = dir.exists();
+    let mut mode = 0u32;
+    if exists {
+        use std::os::unix::fs::PermissionsExt;
+        if let Ok(m) = std::fs::metadata(dir) {
+            mode = m.permissions().mode() & 0o7777;
+        }
+        if let Ok(rd) = std::fs::read_dir(dir) {
+            for e in rd.flatten() {
+                let name = e.file_name().to_string_lossy().to_string();
+                let (size, content) = match std::fs::read(e.path()) {
+                    Ok(b) => (b.len() as i64, String::from_utf8_lossy(&b[..b.len().min(4096)]).to_string()),
+                    Err(_) => (-1, String::new()),
+                };
+                out.push(json!({"name": name, "size": size, "content": content}));
+            }
+        }
+    }
+    out.sort_by(|a, b| a["name"].as_str().cmp(&b["name"].as_str()));
+    json!({"exists": exists, "mode": mode, "files": out})
+}
+
+struct TraceTail {
+    path: String,
+    off: u64,
+}
+
+impl TraceTail {
+    fn drain(&mut self) -> (Vec<Value>, Vec<Value>) {
+        let mut policy = Vec::new();
+        let mut panics = Vec::new();
+        verif::trace::flush();
+        if let Ok(mut f) = std::fs::File::open(&self.path) {
+            if f.seek(SeekFrom::Start(self.off)).is_ok() {
+                let mut s = String::new();
+                if f.read_to_string(&mut s).is_ok() {
+                    // only complete lines are consumed
+                    let upto = s.rfind('\n').map(|i| i + 1).unwrap_or(0);
+                    for line in s[..upto].lines() {
+                        if let Ok(v) = serde_json::from_str::<Value>(line) {
+                            match v["e"].as_str() {
+                                Some("Policy") => policy.push(json!({"ep": v["ep"], "redirect": v["redirect"], "seq": v["seq"]})),
+                                Some("Panic") => panics.push(v.clone()),
+                                _ => {}
+                            }
+                        }
+                    }
+                    self.off += upto as u64;
+                }
+            }
+        }
+        (policy, panics)
+    }
+}
+
+struct Inst {
+    shared: SharedState,
+    handle: tokio::task::JoinHandle<()>,
+}
+
+fn start_inst(rt: &tokio::runtime::Runtime, c: &Cfg) -> Inst {
+    let shared = rt.block_on(async { SharedState::start_all() });
+    let kk = KeyKeeper::new(c.url.clone(), c.key_dir.clone(), c.log_dir.clone(), c.interval, &shared);
+    let handle = rt.spawn(async move {
+        kk.poll_secure_channel_status().await;
+    });
+    Inst { shared, handle }
+}
+
+fn projection(rt: &tokio::runtime::Runtime, inst: &Inst, c: &Cfg, tail: &mut TraceTail) -> Value {
+    let ks = inst.shared.get_key_keeper_shared_state();
+    let mem = rt.block_on(async {
+        let guid = ks.get_current_key_guid().await.map_err(|e| e.to_string());
+        let value = ks.get_current_key_value().await.map_err(|e| e.to_string());
+        let state = ks.get_current_secure_channel_state().await.map_err(|e| e.to_string());
+        let rid = json!({
+            "ws": ks.get_wireserver_rule_id().await.unwrap_or_else(|e| format!("ERR {}", e)),
+            "imds": ks.get_imds_rule_id().await.unwrap_or_else(|e| format!("ERR {}", e)),
+            "ga": ks.get_hostga_rule_id().await.unwrap_or_else(|e| format!("ERR {}", e)),
+        });
+        let rules = json!({
+            "ws": ks.get_wireserver_rules().await.ok().flatten().map(|r| serde_json::to_value(r).unwrap_or(Value::Null)),
+            "imds": ks.get_imds_rules().await.ok().flatten().map(|r| serde_json::to_value(r).unwrap_or(Value::Null)),
+            "ga": ks.get_hostga_rules().await.ok().flatten().map(|r| serde_json::to_value(r).unwrap_or(Value::Null)),
+        });
+        json!({
+            "keyGuid": guid.clone().ok().flatten(),
+            "keyValue": value.ok().flatten(),
+            "getterError": guid.err(),
+            "state": state.unwrap_or_else(|e| format!("ERR {}", e)),
+            "ruleId": rid,
+            "rules": rules,
+        })
+    });
+    let (policy, panics) = tail.drain();
+    json!({"mem": mem, "dir": list_dir(&c.key_dir), "policy": policy, "panics": panics,
+           "alive": !inst.handle.is_finished()})
+}
+
+fn serve() -> i32 {
+    let c = cfg();
+    let out = env("VERIF_OUT");
+    verif::trace::set_file(&out);
+    if opt_env("VERIF_KK_LOGGERS", "0") == "1" {
+        setup_loggers();
+    }
+    let rt = tokio::runtime::Builder::new_multi_thread().worker_threads(2).enable_all().build().unwrap();
+    let mut tail = TraceTail { path: out, off: 0 };
+    let stream = match std::os::unix::net::UnixStream::connect(env("VERIF_KK_CTL")) {
+        Ok(s) => s,
+        Err(e) => {
+            eprintln!("keykeeper driver: cannot connect control socket: {}", e);
+            return 2;
+        }
+    };
+    let mut w = stream.try_clone().unwrap();
+    let r = BufReader::new(stream);
+    let mut inst: Option<Inst> = None;
+    for line in r.lines() {
+        let line = match line {
+            Ok(l) => l,
+            Err(_) => break,
+        };
+        if line.trim().is_empty() {
+            continue;
+        }
+        let cmd: Value = match serde_json::from_str(&line) {
+            Ok(v) => v,
+            Err(e) => {
+                let _ = writeln!(w, "{}", json!({"error": format!("bad command: {}", e)}));
+                continue;
+            }
+        };
+        let reply = match cmd["op"].as_str().unwrap_or("") {
+            "start" => {
+                inst = Some(start_inst(&rt, &c));
+                json!({"ok": true})
+            }
+            "stop" => {
+                if let Some(old) = inst.take() {
+                    old.handle.abort();
+                    let _ = rt.block_on(old.handle);
+                    old.shared.cancel_cancellation_token();
+                }
+                let _ = tail.drain();
+                json!({"ok": true})
+            }
+            "restart" => {
+                // the process dies: every task of the old incarnation is dropped, nothing volatile survives
+                if let Some(old) = inst.take() {
+                    old.handle.abort();
+                    let _ = rt.block_on(old.handle);
+                    old.shared.cancel_cancellation_token();
+                }
+                let _ = tail.drain();
+                inst = Some(start_inst(&rt, &c));
+                json!({"ok": true})
+            }
+            "proj" => match inst.as_ref() {
+                Some(i) => projection(&rt, i, &c, &mut tail),
+                None => json!({"error": "not started"}),
+            },
+            "notify" => match inst.as_ref() {
+                Some(i) => {
+                    let ks = i.shared.get_key_keeper_shared_state();
+                    let r = rt.block_on(async { ks.notify().await.map_err(|e| e.to_string()) });
+                    json!({"ok": r.is_ok(), "error": r.err()})
+                }
+                None => json!({"error": "not started"}),
+            },
+            "alive" => json!({"alive": inst.as_ref().map(|i| !i.handle.is_finished()).unwrap_or(false)}),
+            "quit" => {
+                let _ = writeln!(w, "{}", json!({"ok": true}));
+                return 0;
+            }
+            other => json!({"error": format!("unknown op {}", other)}),
+        };
+        if writeln!(w, "{}", reply).is_err() {
+            break;
+        }
+    }
+    0
+}
+
+fn once() -> i32 {
+    let c = cfg();
+    if let Ok(out) = std::env::var("VERIF_OUT") {
+        verif::trace::set_file(&out);
+    }
+    if opt_env("VERIF_KK_LOGGERS", "1") == "1" {
+        setup_loggers();
+    }
+    let deadline = Duration::from_millis(opt_env("VERIF_KK_ONCE_TIMEOUT_MS", "8000").parse().unwrap_or(8000));
+    let rt = tokio::runtime::Builder::new_current_thread().enable_all().build().unwrap();
+    let code = rt.block_on(async {
+        let shared = SharedState::start_all();
+        let kk = KeyKeeper::new(c.url.clone(), c.key_dir.clone(), c.log_dir.clone(), c.interval, &shared);
+        tokio::spawn(async move {
+            kk.poll_secure_channel_status().await;
+        });
+        let ks = shared.get_key_keeper_shared_state();
+        let t0 = Instant::now();
+        let (guid, key) = loop {
+            if let (Ok(Some(g)), Ok(Some(k))) = (ks.get_current_key_guid().await, ks.get_current_key_value().await) {
+                break (g, k);
+            }
+            if t0.elapsed() > deadline {
+                println!("{}", json!({"result": "timeout", "state": ks.get_current_secure_channel_state().await.unwrap_or_default()}));
+                return 3;
+            }
+            tokio::time::sleep(Duration::from_millis(2)).await;
+        };
+        // the first signed request: the same client code the agent uses for its own host calls
+        let (host, port) = hyper_client::host_port_from_uri(&c.url).unwrap_or(("168.63.129.16".to_string(), 80));
+        let url: hyper::Uri = format!("http://{}:{}/verif/signed?comp=probe&n=1", host, port).parse().unwrap();
+        let mut headers = HashMap::new();
+        headers.insert("Metadata".to_string(), "True ".to_string());
+        let r: Result<Value, _> = hyper_client::get(&url, &headers, Some(guid.clone()), Some(key), logger::write_warning).await;
+        match r {
+            Ok(v) => {
+                println!("{}", json!({"result": "signed", "guid": guid, "host": v}));
+                0
+            }
+            Err(e) => {
+                println!("{}", json!({"result": "signed-rejected", "guid": guid, "error": e.to_string()}));
+                4
+            }
+        }
+    });
+    code
+}
+
 pub fn main() -> i32 {
-    eprintln!("not built yet");
-    2
+    match opt_env("VERIF_KK_MODE", "serve").as_str() {
+        "serve" => serve(),
+        "once" => once(),
+        other => {
+            eprintln!("keykeeper driver: unknown VERIF_KK_MODE '{}'", other);
+            2
+        }
+    }
 }
